@@ -106,6 +106,18 @@ def run(ctx):
            "corpus_witnesses_reproduced": reproduced,
            "role_audit_on_real_preprocessed_columns": rep.get("role_audit", [])[:3],
            "known_not_reproduced": []}
+    # the sponge rows of the Poseidon circuit tables carry the transcript: a chained row whose input is not the previous
+    # row's output, or a chain start whose unfed limbs are free, un-binds every later challenge. Row-level tamper oracle of
+    # the C11 harness on the real Poseidon2 / Poseidon1 AIRs (all layouts), sponge-mode classes only.
+    if not ctx.get("replay"):
+        from checks_c04 import poseidon_row_violations
+        v3, c3 = poseidon_row_violations(ctx, keep=lambda c: any(k in c for k in ("sponge-chaining", "sponge-ctl-input", "new-start-unfed", "permutation-unenforced")))
+        violations += v3
+        if isinstance(cov, dict) and cov:
+            cov["evaluations"] = cov.get("evaluations", 0) + c3.get("poseidon.tamper_evaluations", 0)
+            cov["poseidon_sponge_rows"] = c3
+            cov["rule"] = cov.get("rule", "") + ("; plus sponge rows of the Poseidon circuit tables (Poseidon2 and Poseidon1, generic / compact D=1 / arity-4 / "
+                                               "width-24 layouts): chained-row inputs and chain starts tampered through the real AIR eval, judged by an independent decoder")
     return violations, cov
 
 
